@@ -224,7 +224,7 @@ def execute(args) -> Dict[str, Any]:
 
 
 def _own(probs):
-    return any(p["prop"] in ("C07", "C03") for p in probs)
+    return any(p["prop"] in ("C07", "C03", "C01") for p in probs)
 
 
 def dynamic_churn(args) -> Dict[str, Any]:
@@ -310,7 +310,9 @@ def run(tier: str) -> int:
                 execs += 1
                 rounds += r.get("rounds", 0)
                 for p in r["problems"]:
-                    if p["prop"] not in ("C07", "C03"):
+                    # "delivery among the remaining clients is unaffected" is part of this statement: data-frame problems at
+                    # survivors count here too; notices / acknowledgements belong to C14 / C19
+                    if p["prop"] not in ("C07", "C03", "C01"):
                         chk.count(f"other_property_{p['prop']}_{p['kind']}")
                         continue
                     fk = p.get("frame", [""])[0] if isinstance(p.get("frame"), list) else ""
